@@ -18,7 +18,11 @@ COVERED = {
                         "resource_tracker": "no-op", "resource_tracker.unregister": "no-op", "process": "type only", "process.BaseProcess": "type only",
                         "Process": "benchmarks launcher only (re-written in the harness)"},
     "subprocess": {"run": "fake (findmnt / uv never invoked with packages)", "Popen": "fake: records the command line", "CalledProcessError": "type"},
-    "os": {"environ": "per-process env shim", "getenv": "per-process env shim", "environ.get": "per-process env shim", "path": "pure", "getpid": "unused in simulated paths"},
+    "os": {"environ": "per-process env shim", "getenv": "per-process env shim", "environ.get": "per-process env shim", "getpid": "unused in simulated paths",
+           "path.join": "pure", "path.basename": "pure", "path.dirname": "pure", "path.splitext": "pure", "path.abspath": "pure", "path.sep": "const", "sep": "const", "fspath": "pure",
+           "path.exists": "in-memory fs for spill paths", "path.isfile": "in-memory fs for spill paths", "path.isdir": "in-memory fs for spill paths", "path.getsize": "in-memory fs for spill paths",
+           "remove": "in-memory fs for spill paths", "unlink": "in-memory fs for spill paths", "listdir": "in-memory fs for spill paths", "makedirs": "in-memory fs for spill paths",
+           "mkdir": "in-memory fs for spill paths", "rename": "in-memory fs for spill paths", "replace": "in-memory fs for spill paths"},
     "uuid": {"uuid4": "ids from the choice stream"},
     "tempfile": {"TemporaryDirectory": "in-memory fs"},
     "signal": {"signal": "no-op", "SIGINT": "const", "SIGTERM": "const"},
@@ -88,6 +92,8 @@ def run(root=None, verbose=False):
             continue
         cov = COVERED.get(mod, {})
         ok = attr in cov or any(attr.startswith(k + ".") for k in cov) or any(k.startswith(attr + ".") for k in cov) or attr == ""
+        if mod == "os" and attr.startswith("path.") and attr not in cov:
+            ok = False
         if verbose:
             print(("ok  " if ok else "BAD ") + f"{mod}.{attr}: {cov.get(attr, '')} {sim_where[:3]}")
         if not ok:
